@@ -236,11 +236,17 @@ func findMarker(v chsim.Value) string {
 // (an item may own several rows), the item's timestamp otherwise (metrics_15s rows carry their bucket start).
 func (c *Cell) RowTs(table string, row int, it *Item) int64 {
 	base := baseName(table)
-	if base == "metrics_15s" {
-		return it.Ts
-	}
 	t := c.DB.Table(base)
 	if t == nil || row >= len(t.Rows) {
+		return it.Ts
+	}
+	if base == "metrics_15s" {
+		// the row carries its bucket start: answer with the sample of the item that lies in that bucket
+		if k := colIndex(t, "timestamp_ns"); k >= 0 && it.Extra != 0 {
+			if b, ok := t.Rows[row][k].(int64); ok && floorTo(it.Extra, 15e9) == b && floorTo(it.Ts, 15e9) != b {
+				return it.Extra
+			}
+		}
 		return it.Ts
 	}
 	if k := colIndex(t, "timestamp_ns"); k >= 0 {
